@@ -85,6 +85,9 @@ type Cluster struct {
 	MetaAddr   string
 	MasterAddr string
 	Down       map[string]bool     // server refuses connections
+	// RespHook (tier W) may replace the response and the cells of a successfully executed
+	// single-row operation: structurally valid answers with odd contents
+	RespHook func(kind string, row []byte, resp proto.Message, cells []KV) (proto.Message, []KV)
 	Silent     map[string]bool     // server accepts requests but never answers
 	Hold       map[string]bool     // row key -> the answer to user operations on it is held back (slow server)
 	KeyScript  map[string][]string // row key -> outcome classes of the next user operations on it ("" = execute)
